@@ -1468,13 +1468,24 @@ class BADS:
                 if yval_vec.size == 1:
                     yval_vec = np.vstack((yval_vec, self.yval))
                     if self.options["specify_target_noise"]:
-                        ysd_vec = np.vstack(
-                            (
-                                ysd_vec,
-                                self.function_logger.S[
-                                    self.function_logger.Xn
-                                ],
+                        # noise SD of the earlier observation at the final point
+                        # (its log row), not of the last logged point
+                        u_rows = np.flatnonzero(
+                            np.all(
+                                self.function_logger.X[
+                                    : self.function_logger.Xn + 1
+                                ]
+                                == self.u,
+                                axis=1,
                             )
+                        )
+                        u_row = (
+                            u_rows[-1]
+                            if u_rows.size > 0
+                            else self.function_logger.Xn
+                        )
+                        ysd_vec = np.vstack(
+                            (ysd_vec, self.function_logger.S[u_row])
                         )
 
                 self.optim_state["yval_vec"] = np.copy(yval_vec)
